@@ -16,7 +16,7 @@ Record tclass := {
   c_meta_inputs : list (str + nat);   (* Meta.input_tasks: names / patterns / classes *)
   c_param_inputs : list idecl;        (* the InputTaskParameter entries of Meta.parameters *)
   c_data : dkind;
-  c_runargs : list str }.
+  c_runargs : list str }.   (* the inputs named (by task name) in the signature of run, in that order *)
 
 Section Chain.
   Variable H : str -> str.
